@@ -54,7 +54,16 @@ def run(res, proofs_ok, proofs_why):
     cfg, binary = _shm.run_property("C02", res, proofs_ok, proofs_why, extra_part=extra)
     if cfg is None:
         return
-    body = ("Theorem current_cfg_safe : safe_cfg current_cfg = true.\nProof. vm_compute. reflexivity. Qed.\n")
+    body = ("From CB Require Import SeqlockInv SeqlockRA.\nFrom CB.Properties Require Import C02.\n"
+            "Theorem current_cfg_safe : safe_cfg current_cfg = true.\nProof. vm_compute. reflexivity. Qed.\n"
+            "(* the general theorem instantiated with the configuration measured from the running code *)\n"
+            "Theorem C02_for_the_running_code : forall ts m o, Forall real_token ts ->\n"
+            "  m_run (m_init current_cfg) ts = (m, o) -> (Z.of_nat (m_nrec m) < 32767)%Z ->\n"
+            "  forall j ret rec, In (ORet j ret rec) o -> ret <> RetErr ->\n"
+            "    rec = repeat 0%Z (c_cells current_cfg) \\/\n"
+            "    exists a q e, (0 < a)%nat /\\ ev (w_log (m_w m)) q = Some e /\\ e_kind e = KEven /\\ e_att e = a /\\ rec = rec_of (c_cells current_cfg) a.\n"
+            "Proof. intros ts m o. apply (C02_RA current_cfg ts m o current_cfg_safe). Qed.\n"
+            "Print Assumptions C02_for_the_running_code.\n")
     ok, log = _shm.current_obligation(cfg, "C02", body)
     res.oblige("Current_C02.v: safe_cfg current_cfg = true (release fence after the odd store, acquire fence before the re-load, "
                "Release final store, Acquire generation loads, copy orders are permutations)", ok)
@@ -71,9 +80,17 @@ def run(res, proofs_ok, proofs_why):
         else:
             res.violation({"property": "C02", "kind": "obligation", "obligation": "Current_C02.v: safe_cfg current_cfg = true does not hold: " + log[-800:],
                            "measured_cfg": cfg}, found_input=False)
-    res.assumptions.append("the general theorem 'every accepted record is one completed publication' for every safe configuration is not yet part of "
-                           "Properties/C02.v (the refutations for the three unsafe configurations, the rejection witness for the safe one and the accept "
-                           "condition are); see DESIGN.md")
+    # known finding C02-aba on the real code: 32767 publications inside one snapshot() call
+    toks = [("W",)] * 11 + [("N",)] + [("R", 0, None)] * 4 + [("J", 65534)] + [("W",)] * 11 + [("R", 0, None)] * 9
+    ln = _shm.line_of(cfg, toks)
+    out = c.run_lines(binary, [ln])[0]
+    res.evaluations += 1
+    mixed = [ob for ob in _shm.parse_obs(out) if ob["t"] == "T" and ob["ret"] == "F" and _shm.rec_index(ob["cells"]) is None]
+    if mixed:
+        if not res.known_finding("C02-aba", "generation wrapped once around (32767 publications, shortened with the J token) inside one snapshot() call of the real reader: accepted %s" % mixed[0]["cells"]):
+            res.violation({"property": "C02", "kind": "schedule", "case": {"schedule": _shm.tok_str(toks), "impl": out,
+                           "why": ["mixture accepted after a 16-bit generation wrap inside one call, not listed as a known finding"]}})
+    res.assumptions.append("side condition of C02_RA: fewer than 32767 write() calls in the run (16-bit generation ABA, known finding C02-aba)")
 
 
 def replay(res, path):
